@@ -1534,6 +1534,7 @@ class PCE500Emulator:
         interrupts = {
             "pending": bool(getattr(self, "_irq_pending", False)),
             "in_interrupt": bool(getattr(self, "_in_interrupt", False)),
+            "key_latched": bool(getattr(self, "_key_irq_latched", False)),
             "source": irq_source_name,
             "stack": list(self._interrupt_stack),
             "next_id": int(self._next_interrupt_id),
@@ -1751,6 +1752,7 @@ class PCE500Emulator:
         interrupts = metadata.get("interrupts", {})
         self._irq_pending = bool(interrupts.get("pending", False))
         self._in_interrupt = bool(interrupts.get("in_interrupt", False))
+        self._key_irq_latched = bool(interrupts.get("key_latched", False))
         source_name = interrupts.get("source")
         self._irq_source = IRQSource[source_name] if source_name else None
         self._interrupt_stack = list(interrupts.get("stack", []))
